@@ -166,8 +166,7 @@ def main(chk, replay=None):
                            "init": {"d": d}, "events": events, "extra": ex,
                            "case": {"d": c, "ord": mode, "proto": pr, "list": c["list"], "sel": c["sb"] or "/"}})
     enums = sum(1 for tr in traces for e in tr["events"] if e["ev"] == "enum")
-    demanded = sorted({(k["fault"] if k["fault"] != "none" else k["kind"]) for tr in traces for k in tr["case"]["d"]["kids"]
-                       if k["fault"] != "none" or k["kind"] == "fifo"})
+    demanded = sorted({k["fault"] for tr in traces for k in tr["case"]["d"]["kids"] if k["fault"] != "none"})
     fired = {}
     for tr in traces:
         for n, what, c_ in tr["extra"]["fired"]:
@@ -190,6 +189,11 @@ def main(chk, replay=None):
                       {"events": tr["events"], "rejected_at_event": rj["at"], "raw": ex["raw"], "log": ex["log"],
                        "escaped": ex["escaped"], "touches": ex["touches"]})
     chk.note_drift(tv["drift"])
+    classes = {}
+    for rj in tv["rejected"]:
+        ex = traces[rj["index"]]["extra"]
+        kcl = "%s|%s|%s" % (rj["clause"], ex["culprit_label"] or "-", ex["cause"] or "-")
+        classes[kcl] = classes.get(kcl, 0) + 1
     st = selftest(traces) if not replay else {"ran": False}
     faulty = [tr for tr in traces if any(dl.kid_label(tr["case"]["d"], k["name"]).split(":")[0] not in ("healthy", "dot-healthy")
                                          for k in tr["case"]["d"]["kids"])]
@@ -209,7 +213,7 @@ def main(chk, replay=None):
         "samples": [{"id": tr["id"], "events": tr["events"]} for tr in (faulty[:2] + faulty[-1:])],
         "checker_cmd": res["cmd"] + " ; " + tv["cmd"],
         "cases_from_tlc": len(cases), "generation_states": gen_states, "trace_states": tv["states"],
-        "faults_fired": fired, "listdir_substitute_calls": enums,
+        "faults_fired": fired, "rejection_classes": classes, "listdir_substitute_calls": enums,
         "witness_pinned_model_violates": wit["inv_violations"], "selftest": st,
         "model_coverage_zero": sorted(k for k, v in res.get("coverage", {}).items() if v[0] == 0)[:20],
         "bindings": ["B1 ignore pattern + handler list from conf", "B2 every TLC initial state built and listed", "B3 TraceC12"],
